@@ -750,9 +750,14 @@ func (s *Stage) cleanStrays(minAge time.Duration) {
 			filePath := strings.TrimSuffix(path, partExt)
 			fileState := s.getFileState(filePath)
 			fileHash := s.getFileHash(filePath)
-			if fileState > stateReceived {
+			if fileState > stateReceived && fileState != stateFailed {
+				// The name is known as validated, put away or logged: the
+				// partial is a left-over of that only if it is the same
+				// version, and its companion goes with it, never alone.  (A
+				// version that failed validation has not been delivered: what
+				// is staged for it is its re-send; ask the log below.)
 				delete = comp == nil || comp.Hash == fileHash
-				deleteCmp = compExists && fileState == stateLogged
+				deleteCmp = delete && compExists && fileState == stateLogged
 				s.logDebug("Stray partial cache info:", relPath, fileState, fileHash)
 			} else {
 				end := time.Now()
